@@ -387,6 +387,9 @@ func runC02(c *mon.Ctx) {
 			{"no-alg-anywhere", sign1Bytes(nil, nil, pay, signOver(nil, pay))},
 			{"nil-payload/signed-over-empty", envelopeBytes(18, refcbor.Bstr(A.env.ProtectedBS), refcbor.MapOf(), refcbor.Null(), refcbor.Bstr(signOver(A.env.ProtectedBS, nil)))},
 			{"empty-payload/signed-over-empty", sign1Bytes(A.env.ProtectedBS, nil, nil, signOver(A.env.ProtectedBS, nil))},
+			{"nil-payload/original-signature", envelopeBytes(18, refcbor.Bstr(A.env.ProtectedBS), refcbor.MapOf(), refcbor.Null(), refcbor.Bstr(A.env.Signature))},
+			{"undefined-payload/original-signature", envelopeBytes(18, refcbor.Bstr(A.env.ProtectedBS), refcbor.MapOf(), refcbor.Undef(), refcbor.Bstr(A.env.Signature))},
+			{"empty-payload/original-signature", sign1Bytes(A.env.ProtectedBS, nil, nil, A.env.Signature)},
 			{"empty-signature", sign1Bytes(A.env.ProtectedBS, nil, pay, nil)},
 			{"null-signature", envelopeBytes(18, refcbor.Bstr(A.env.ProtectedBS), refcbor.MapOf(), refcbor.Bstr(pay), refcbor.Null())},
 			{"alg-as-text-in-protected", sign1Bytes(refcbor.Encode(refcbor.MapOf(refcbor.I(1), refcbor.Tstr(alg))), nil, pay, signOver(refcbor.Encode(refcbor.MapOf(refcbor.I(1), refcbor.Tstr(alg))), pay))},
@@ -434,6 +437,17 @@ func runC02(c *mon.Ctx) {
 				name string
 				pk   crypto.PublicKey
 			}{"other-" + an + "-key", ko.Pub})
+		}
+		for _, cv := range []struct {
+			name string
+			pk   crypto.PublicKey
+		}{{"empty-key-slice", []crypto.PublicKey{}}, {"nil-key-slice", []crypto.PublicKey(nil)}, {"slice-of-other-key", []crypto.PublicKey{k2.Pub}}, {"slice-of-nil", []crypto.PublicKey{nil}},
+			{"slice-of-wrong-type-keys", []crypto.PublicKey{k3.Pub, "x"}}, {"empty-any-slice", []any{}}, {"empty-map", map[string]crypto.PublicKey{}}, {"empty-struct", struct{}{}},
+			{"pointer-to-key-interface", &k2.Pub}, {"nil-int-pointer", (*int)(nil)}, {"func", func() {}}, {"private-key-of-other", k2.Priv}} {
+			others = append(others, struct {
+				name string
+				pk   crypto.PublicKey
+			}{cv.name, cv.pk})
 		}
 		others = append(others, struct {
 			name string
